@@ -133,7 +133,7 @@ SPEC = {
     "translators": [["locks", "-out", "{gen}/C20Locks.v"]],
     "coq_targets": ["C20/Model.vo", "C20/Spec.vo", "C20/Lemmas.vo", "C20/ProofsWF.vo", "C20/ProofsWF2.vo",
                     "C20/ProofsWF3.vo", "C20/ProofsCaps.vo", "C20/ProofsNonce.vo", "C20/ProofsNonce2.vo",
-                    "C20/ProofsNonce3.vo", "C20/ProofsNonce4.vo", "C20/ProofsNonce5.vo", "C20/ProofsTotal.vo", "C20/Proofs.vo",
+                    "C20/ProofsNonce3.vo", "C20/ProofsNonce4.vo", "C20/ProofsNonce5.vo", "C20/ProofsTotal.vo", "C20/ProofsLocals.vo", "C20/Proofs.vo",
                     "gen/C20Locks.vo", "C20/Bridge.vo", "C20/Properties.vo"],
     "coq_dirs": ["C20"],
     "properties_v": "C20/Properties.v",
@@ -141,7 +141,8 @@ SPEC = {
         "C20_views_partition", "C20_never_pending_and_queued", "C20_pooled_valid",
         "C20_pending_gapfree_refuted", "C20_pending_gapfree_holds_outside", "C20_state_clauses_after_repair",
         "C20_pending_api_exact", "C20_never_panics", "C20_limits_after_every_reorg",
-        "C20_account_queue_after_submission", "C20_accepted_is_pooled", "C20_lock_discipline", "C20_read_regions_do_not_write", "C20_evict_branch_as_modelled",
+        "C20_account_queue_after_submission", "C20_accepted_is_pooled",
+        "C20_locals_only_from_accepted_local_submissions", "C20_lock_discipline", "C20_read_regions_do_not_write", "C20_evict_branch_as_modelled",
         "C20_nonvacuous_partition", "C20_nonvacuous_repair", "C20_nonvacuous_holds_outside", "C20_nonvacuous_limits",
     ],
     "cases": {"quick": 300, "thorough": 4500},
